@@ -430,6 +430,11 @@ class Signomial(object):
             other_v = other.query_coeff(np.array(k))
             if abs(v - other_v) > 1e-8:
                 return False
+        for k in other.alpha_c:
+            v = other.alpha_c[k]
+            self_v = self.query_coeff(np.array(k))
+            if abs(v - self_v) > 1e-8:
+                return False
         return True
 
     def without_zeros(self):
